@@ -178,20 +178,27 @@ theorem callbacks_see_current_value (m : Entries) (k d : Nat) (v : Val) (f : RFn
 /-- the time a running sweep judges expiry against -/
 def sweepTime (l : L) (d : MState) : Option Nat :=
   match l with
-  | .sweepStart _ => some d.now
+  | .sweepStart t _ => some (t.getD d.now)
   | .sweepIter t _ _ _ => some t
   | .sweepExpire t _ _ _ _ _ => some t
   | _ => none
 
 /-- The sweep never removes or replaces an entry that has not expired: whatever step a running `CheckExpirations` takes,
     in whatever state the other threads have left the map, every key keeps its entry unless that entry is expired at
-    the sweep's time — and then it is removed, never replaced.  The clock is not touched. -/
+    the sweep's time — and then it is removed, never replaced.  The clock is not touched.
+
+    "The sweep's time" `t` is the `now` **argument** of `CheckExpirations(now)` (`sweepTime`, fixed for the whole call by
+    `sweepTime_is_argument`): the value the caller passed (`sweep:<t>` in histories) or, for `sweep`, the clock value read when
+    the call starts.  It need not be the clock: with `now` ahead of the clock the sweep removes entries that are not yet
+    expired *by the clock* (a `Cache.Load` just before still returns them — see the example below); this is what
+    `Element.IsExpired(now)` means and it is linearizable; whether a caller should pass such a time is not a question about
+    the cache (`udp/server.getConn` passes `time.Now()+10ms`, noted in docs/notes/C14.md). -/
 theorem sweep_only_expired (l : L) (d : MState) (t : Nat) (ht : sweepTime l d = some t) (hnd : NoDupKeys d.data) :
     let d' := (step l d).1
     d'.now = d.now ∧ ∀ k, mget k d'.data = mget k d.data ∨
       (∃ e, mget k d.data = some e ∧ e.expired t = true ∧ mget k d'.data = none) := by
   cases l <;> simp only [sweepTime, reduceCtorEq] at ht
-  case sweepStart oracle =>
+  case sweepStart t0 oracle =>
     cases ha : advance oracle (iterData d d.gen) <;> simp [step, sweepStep, ha]
   case sweepIter t' acc oracle g =>
     cases ha : advance oracle (iterData d g) <;> simp [step, sweepStep, ha]
@@ -226,6 +233,41 @@ theorem sweep_only_expired (l : L) (d : MState) (t : Nat) (ht : sweepTime l d = 
         by_cases hk : k = k'
         · subst hk; left; simp [hg]
         · left; simp [hk]
+
+/-- The time a sweep judges expiry against is fixed when the call starts — the argument the caller passed, else the clock
+    value at the first step — and never changes afterwards, whatever the clock does. -/
+theorem sweepTime_is_argument (c : Call) (t0 : Option Nat) (hc : c.op = .sweep t0) (d : MState) :
+    sweepTime (start c) d = some (t0.getD d.now) ∧
+    ∀ (l : L) (d1 : MState) (t : Nat), sweepTime l d1 = some t →
+      ∀ l', (step l d1).2 = .inl l' → ∀ d2 : MState, sweepTime l' d2 = some t := by
+  constructor
+  · simp [start, hc, sweepTime]
+  · intro l d1 t ht l' hl' d2
+    cases l <;> simp only [sweepTime, reduceCtorEq, Option.some.injEq] at ht
+    case sweepStart t1 oracle =>
+      simp only [step, sweepStep] at hl'
+      cases ha : advance oracle (iterData d1 d1.gen) with
+      | none => simp [ha] at hl'
+      | some x =>
+        obtain ⟨c', e, cs⟩ := x
+        simp only [ha, Sum.inl.injEq] at hl'
+        subst hl'
+        unfold sweepAfterVisit
+        split <;> simp [sweepTime, ht]
+    case sweepIter t1 acc oracle g =>
+      simp only [step, sweepStep] at hl'
+      cases ha : advance oracle (iterData d1 g) with
+      | none => simp [ha] at hl'
+      | some x =>
+        obtain ⟨c', e, cs⟩ := x
+        simp only [ha, Sum.inl.injEq] at hl'
+        subst hl'
+        unfold sweepAfterVisit
+        split <;> simp [sweepTime, ht]
+    case sweepExpire t1 k e acc cs g =>
+      simp only [step, Sum.inl.injEq] at hl'
+      subst hl'
+      simp [sweepTime, ht]
 
 /-! ### Range -/
 
@@ -339,6 +381,28 @@ example : finalState impl { data := [(1, ⟨5, 3⟩)], now := 10 } (fun t => .id
 example : finalState impl { data := [(1, ⟨5, 3⟩)], now := 10 } (fun t => .idle (exSweep t)) [0, 0, 0, 1] = { data := [(1, ⟨7, 100⟩)], now := 10 } := by decide
 example : sweepTime (.sweepExpire 10 1 ⟨5, 3⟩ [] [] 0) { data := [(1, ⟨5, 3⟩)], now := 10 } = some 10 ∧ (⟨5, 3⟩ : Val).expired 10 = true := by decide
 
+/-- a sweep whose `now` is **ahead of the clock** (clock 10, `CheckExpirations(50)`): entry 5 (valid until 20) is not expired
+    by the clock — `Cache.Load` returns it — and is removed by the sweep; the history is linearizable, and the removal is
+    what `sweep_only_expired` allows (expired at the sweep's own time 50) -/
+def exAhead : Nat → List Call
+  | 0 => [⟨.cacheLoad 1, []⟩, ⟨.sweep (some 50), [1]⟩, ⟨.cacheLoad 1, []⟩]
+  | _ => []
+
+example : history impl { data := [(1, ⟨5, 20⟩)], now := 10 } (fun t => .idle (exAhead t)) [0, 0, 0, 0, 0] =
+    [.call 0 (.cacheLoad 1), .ret 0 (.opt (some ⟨5, 20⟩)), .call 0 (.sweep (some 50)), .ret 0 .unit,
+     .call 0 (.cacheLoad 1), .ret 0 (.opt none)] := by decide
+example : (⟨5, 20⟩ : Val).expired 10 = false ∧ (⟨5, 20⟩ : Val).expired 50 = true := by decide
+
+/-- a sweep whose `now` is **behind the clock** (clock 30, `CheckExpirations(15)`): entry 5 (valid until 20) is expired by the
+    clock (`Cache.Load` hides it) but not at the sweep's time, so the sweep leaves it in the map -/
+def exBehind : Nat → List Call
+  | 0 => [⟨.sweep (some 15), [1]⟩, ⟨.cacheLoad 1, []⟩, ⟨.load 1, []⟩]
+  | _ => []
+
+example : history impl { data := [(1, ⟨5, 20⟩)], now := 30 } (fun t => .idle (exBehind t)) [0, 0, 0, 0] =
+    [.call 0 (.sweep (some 15)), .ret 0 .unit, .call 0 (.cacheLoad 1), .ret 0 (.opt none),
+     .call 0 (.load 1), .ret 0 (.opt (some ⟨5, 20⟩))] := by decide
+
 /-- a history that is NOT linearizable (both racing calls report "stored") is rejected by the judge, the repaired one accepted -/
 example : judge [.call 0 (.loadOrStore 1 ⟨5, 0⟩), .call 1 (.loadOrStore 1 ⟨7, 0⟩), .ret 0 (.stored ⟨5, 0⟩ false),
     .ret 1 (.stored ⟨7, 0⟩ false)] = false := by decide
@@ -369,6 +433,7 @@ open CoapVerif.Props.C14
 #print axioms cacheLoadOrStore_one_winner
 #print axioms callbacks_see_current_value
 #print axioms sweep_only_expired
+#print axioms sweepTime_is_argument
 #print axioms range_weak_spec
 #print axioms range_sequential_complete
 #print axioms judge_sound
